@@ -147,6 +147,39 @@ ValidDuration(s) == ValidDurationParts(s, TRUE, TRUE)
 ValidDayTimeDuration(s) == ValidDurationParts(s, FALSE, TRUE)
 ValidYearMonthDuration(s) == ValidDurationParts(s, TRUE, FALSE)
 
+(* the value of a duration: months and seconds (XSD 1.1: a duration is a pair of months and seconds) *)
+RECURSIVE DurAcc(_, _, _)
+(* s: what is left to read; intime: past the 'T'; acc: [y, mo, d, h, mi, s, f] *)
+DurAcc(s, intime, acc) ==
+  IF s = <<>> THEN acc
+  ELSE IF s[1] = "T" THEN DurAcc(Tail(s), TRUE, acc)
+  ELSE LET n == CHOOSE k \in 1..Len(s) : s[k] \notin Digits \cup {"."} /\ \A i \in 1..(k - 1) : s[i] \in Digits \cup {"."}
+           num == Sub(s, 1, n - 1)   d == s[n]   rest == Sub(s, n + 1, Len(s))
+           dot == Index(num, ".")
+           ip == IF dot = 0 THEN num ELSE Sub(num, 1, dot - 1)
+           fp == IF dot = 0 THEN <<>> ELSE Sub(num, dot + 1, Len(num))
+           v == Num(ip)
+       IN IF d = "Y" THEN DurAcc(rest, intime, [acc EXCEPT !.y = v])
+          ELSE IF d = "M" /\ ~intime THEN DurAcc(rest, intime, [acc EXCEPT !.mo = v])
+          ELSE IF d = "D" THEN DurAcc(rest, intime, [acc EXCEPT !.d = v])
+          ELSE IF d = "H" THEN DurAcc(rest, intime, [acc EXCEPT !.h = v])
+          ELSE IF d = "M" THEN DurAcc(rest, intime, [acc EXCEPT !.mi = v])
+          ELSE DurAcc(rest, intime, [acc EXCEPT !.s = v, !.f = fp])
+DurZero == [y |-> 0, mo |-> 0, d |-> 0, h |-> 0, mi |-> 0, s |-> 0, f |-> <<>>]
+DurNeg(s) == Len(s) >= 1 /\ s[1] = "-"
+DurBody(s) == IF DurNeg(s) THEN Sub(s, 3, Len(s)) ELSE Sub(s, 2, Len(s))        \* after "-P" / "P"
+DurFields(s) == DurAcc(DurBody(s), FALSE, DurZero)
+(* small numbers only (machine integers), and no digit of the seconds fraction beyond the sixth that is not zero *)
+RECURSIVE MaxRun(_, _, _)
+MaxRun(s, i, run) == IF i > Len(s) THEN run ELSE IF s[i] \in Digits THEN (LET r == MaxRun(s, i + 1, run + 1) IN r) ELSE (LET r == MaxRun(s, i + 1, 0) IN IF r > run THEN r ELSE run)
+DurJudged(s) == LET f == DurFields(s) IN
+                /\ \A k \in 1..Len(s) : ~(\E j \in k..Len(s) : j - k >= 6 /\ \A i \in k..j : s[i] \in Digits /\ Index(Sub(s, 1, k), ".") = 0)    \* no integer of 7+ digits
+                /\ (Len(f.f) > 6 => IsZero(Sub(f.f, 7, Len(f.f))))
+DurMonths(s) == LET f == DurFields(s) IN 12 * f.y + f.mo
+DurSeconds(s) == LET f == DurFields(s) IN ((f.d * 24 + f.h) * 60 + f.mi) * 60 + f.s
+DurMicros(s) == LET f == DurFields(s) IN IF f.f = <<>> THEN 0 ELSE Num(IF Len(f.f) >= 6 THEN Sub(f.f, 1, 6) ELSE f.f \o [i \in 1..(6 - Len(f.f)) |-> "0"])
+DurIsZero(s) == DurMonths(s) = 0 /\ DurSeconds(s) = 0 /\ DurMicros(s) = 0
+
 ValidHexBinary(s) == Len(s) % 2 = 0 /\ AllIn(s, HexDigits)
 
 Judged == IntFamily \cup {"boolean", "decimal", "double", "float", "date", "time", "dateTime", "duration", "dayTimeDuration", "yearMonthDuration", "hexBinary"}
